@@ -16,6 +16,7 @@ _saved: dict = {}
 class Tok(bytes):
     value: Any = None
     width: int = 0
+    symbolic: bool = False  # set by harnesses for octets that are solver terms
 
     def __new__(cls, value: Any, width: int) -> 'Tok':
         o = bytes.__new__(cls, b'\x00' * width)
@@ -25,6 +26,12 @@ class Tok(bytes):
 
     def __repr__(self) -> str:
         return f'Tok{self.width * 8}({self.value!r})'
+
+
+def sym_octet(value: Any) -> Tok:
+    t = Tok(value, 1)
+    t.symbolic = True
+    return t
 
 
 def install() -> None:
